@@ -96,7 +96,7 @@ func main() {
 	}
 	hs := corpus()
 	ncorp := len(hs)
-	n := c.N(40, 500)
+	n := c.N(40, 300)
 	for i := 0; i < n; i++ {
 		hs = append(hs, updsim.Gen(c.Rng, updsim.GenOpts{MaxEntries: 12, MaxChans: 2}))
 	}
@@ -196,7 +196,7 @@ func main() {
 			c.Violate(f.Sig, f.Desc+" | "+res.H.String(), sh, ix, rep)
 		}
 	}
-	for _, j := range jobs {
+	for jn, j := range jobs {
 		c.Obs.Evaluations++
 		c.Count("restart")
 		first := results[j.hist]
@@ -206,7 +206,8 @@ func main() {
 			continue
 		}
 		sh, ix := -1, 0
-		if !j.res.Interference && !j.res.NoModel {
+		// thorough tier: every restart is judged by the oracles, every 4th goes through the Coq correspondence
+		if !j.res.Interference && !j.res.NoModel && (!c.Thorough() || jn%4 == 0) {
 			sh, ix = c.Case(updsim.CoqCase(j.res, j.persisted, j.records), rep)
 		}
 		j.res.Affected = first.Affected // our own actions of the first run are known to the application
